@@ -323,16 +323,19 @@ def compare(parsed, expected, polar):
         for (fw, zw), fg, zg in zip(want, f, z):
             if not abs(fg - fw) <= RTOL * abs(fw):
                 return "frequency", f"sweep {k + 1}: frequency {fg!r} parsed, {fw!r} written"
-            if polar:
-                ok = abs(zg - zw) <= RTOL * abs(zw)
-            else:
-                ok = abs(zg.real - zw.real) <= RTOL * abs(zw.real) and abs(zg.imag - zw.imag) <= RTOL * abs(zw.imag)
-            if not ok:
-                if abs(zg.conjugate() - zw) <= 1e-6 * abs(zw) and abs(zw.imag) > 1e-6 * abs(zw):
-                    return "sign-of-imaginary", f"sweep {k + 1} at {fw!r} Hz: Z = {zg!r} parsed, {zw!r} written (imaginary part has the wrong sign)"
-                if abs(-zg.conjugate() - zw) <= 1e-6 * abs(zw) and abs(zw.real) > 1e-6 * abs(zw):
-                    return "sign-of-real", f"sweep {k + 1} at {fw!r} Hz: Z = {zg!r} parsed, {zw!r} written (real part has the wrong sign)"
-                return "impedance", f"sweep {k + 1} at {fw!r} Hz: Z = {zg!r} parsed, {zw!r} written"
+            def close(g):
+                if polar:
+                    return abs(g - zw) <= RTOL * abs(zw)
+                return abs(g.real - zw.real) <= RTOL * abs(zw.real) and abs(g.imag - zw.imag) <= RTOL * abs(zw.imag)
+            if not close(zg):
+                at = f"sweep {k + 1} at {fw!r} Hz: Z = {zg!r} parsed, {zw!r} written"
+                if close(zg.conjugate()):
+                    return "sign-of-imaginary", at + " (imaginary part has the wrong sign)"
+                if close(-zg.conjugate()):
+                    return "sign-of-real", at + " (real part has the wrong sign)"
+                if close(-zg):
+                    return "sign-of-both", at + " (both parts have the wrong sign)"
+                return "impedance", at
     return None
 
 
